@@ -253,6 +253,10 @@ func (x *Exec) applyContract(c *Contract, fn *ssa.Function, sig *types.Signature
 	if c.Attrs["noreturn"] {
 		x.st.guard = tFalse
 	}
+	if x.sym != nil && (c.IsFType || !c.IsExtern || c.Attrs["deterministic"]) {
+		// two-copy runs: a callee is a function of its arguments and of the heap
+		x.symDynamic(c, pre, self, args, res)
+	}
 	return res
 }
 
